@@ -20,6 +20,10 @@ const MAX_DEVICES: u8 = 32;
 const MAX_FUNCTIONS: u8 = 8;
 
 /// The offset in bytes to the status and command fields within PCI configuration space.
+/// The maximum number of capabilities which fit in the 192 bytes of configuration space after the
+/// standard header, each being at least 4 bytes long.
+const MAX_CAPABILITIES: u8 = 48;
+
 const STATUS_COMMAND_OFFSET: u8 = 0x04;
 /// The offset in bytes to BAR0 within PCI configuration space.
 const BAR0_OFFSET: u8 = 0x10;
@@ -191,6 +195,7 @@ impl<C: ConfigurationAccess> PciRoot<C> {
             configuration_access: &self.configuration_access,
             device_function,
             next_capability_offset: self.capabilities_offset(device_function),
+            remaining: MAX_CAPABILITIES,
         }
     }
 
@@ -545,6 +550,8 @@ pub struct CapabilityIterator<'a, C: ConfigurationAccess> {
     configuration_access: &'a C,
     device_function: DeviceFunction,
     next_capability_offset: Option<u8>,
+    /// How many more capabilities may be returned, to guard against lists which loop.
+    remaining: u8,
 }
 
 impl<C: ConfigurationAccess> Iterator for CapabilityIterator<'_, C> {
@@ -552,6 +559,12 @@ impl<C: ConfigurationAccess> Iterator for CapabilityIterator<'_, C> {
 
     fn next(&mut self) -> Option<Self::Item> {
         let offset = self.next_capability_offset?;
+        if self.remaining == 0 {
+            warn!("Too many PCI capabilities, the list probably loops");
+            self.next_capability_offset = None;
+            return None;
+        }
+        self.remaining -= 1;
 
         // Read the first 4 bytes of the capability.
         let capability_header = self
